@@ -2,6 +2,7 @@ import TempestVerif.Gen.Kernel
 import TempestVerif.Model.Kernel
 import TempestVerif.Lemmas.ScReal
 import TempestVerif.Props.C16
+import TempestVerif.Lemmas.KernelGeom
 import Mathlib.Analysis.SpecialFunctions.Pow.Real
 import Mathlib.MeasureTheory.Integral.Bochner.Set
 import Mathlib.MeasureTheory.Measure.Lebesgue.Basic
@@ -589,5 +590,290 @@ example : boundedAccept false (7 : ℝ) = 0 ∧ boundedAccept true (7 : ℝ) = 7
 
 example : ((1:ℝ) / (2/3) = 1 / 1 ↔ (2/3 : ℝ) = 1) :=
   C03_truncation_symmetric_iff 1 (2/3) 1 one_ne_zero (by norm_num) one_ne_zero
+
+/-! ## 10. from vectors to the three scalars: the `ModeStatistics` hypotheses (`L Lᵀ = Σ`, `inv_cov = Σ⁻¹`)
+
+  The theorems above speak about `δx, δy, δxy`.  Here the d-dimensional states are put back: with `Σ = L Lᵀ`, `L` invertible
+  (what `ModeStatistics.__init__` precomputes; checked on the real class by suite `mode-stats-consistency`), the proposal
+  `y = μ + a (x - μ) + c L z` has `δy - 2a δxy + a² δx = c² zᵀz`, so the standard-normal density `exp(-zᵀz/2)` of the tape IS the
+  Gaussian factor `cnDens` (up to the state-free Jacobian `c^(-d) |L|^(-1)`), and the `δ`'s are non-negative. -/
+
+section Geometry
+open Matrix Lemmas.Maha Lemmas.KernelGeom
+variable {d : Type} [Fintype d] [DecidableEq d]
+
+/-- the hypotheses `0 ≤ δx`, `0 ≤ δy` of the interior theorems hold for the code's `dot_product` -/
+theorem C03_dot_nonneg (L : Matrix d d ℝ) (hL : IsUnit L.det) (v : d → ℝ) : 0 ≤ maha (L * Lᵀ) v :=
+  maha_chol_nonneg L hL v
+
+/-- Crank–Nicolson exponent of the tpCN proposal in terms of the drawn normal vector -/
+theorem C03_cn_exponent_is_noise_norm (L : Matrix d d ℝ) (hL : IsUnit L.det) (μ x z : d → ℝ) (a c : ℝ) :
+    maha (L * Lᵀ) ((μ + a • (x - μ) + c • (L *ᵥ z)) - μ)
+        - 2 * a * mahaCross (L * Lᵀ) (x - μ) ((μ + a • (x - μ) + c • (L *ᵥ z)) - μ)
+        + a ^ 2 * maha (L * Lᵀ) (x - μ)
+      = c ^ 2 * (z ⬝ᵥ z) := by
+  rw [← maha_cn_expand (L * Lᵀ) (isSymm_mul_transpose L) a (x - μ), ← maha_chol_noise L hL c z]
+  congr 1; abel
+
+/-- hence the density `exp(-zᵀz/2)` of the normal tape equals the Gaussian factor of `cnDens` (exponent part) with
+    `δx, δy, δxy` the Mahalanobis scalars of the actual states and noise variance `c²` -/
+theorem C03_tape_density_is_cnDens (L : Matrix d d ℝ) (hL : IsUnit L.det) (μ x z : d → ℝ) (a c : ℝ) (hc : c ≠ 0) :
+    Real.exp (-(z ⬝ᵥ z) / 2)
+      = Real.exp (-(maha (L * Lᵀ) ((μ + a • (x - μ) + c • (L *ᵥ z)) - μ)
+          - 2 * a * mahaCross (L * Lᵀ) (x - μ) ((μ + a • (x - μ) + c • (L *ᵥ z)) - μ)
+          + a ^ 2 * maha (L * Lᵀ) (x - μ)) / (2 * c ^ 2)) := by
+  rw [C03_cn_exponent_is_noise_norm L hL]
+  congr 1; field_simp
+
+/-- RWM: the increment `σ L z` has Mahalanobis norm `σ² zᵀz`, and the increment density `exp(-|ξ|²_Σ/(2σ²))` is even —
+    the hypothesis `hk` of `C03_rwm_interior` / `C03_rwm_periodic_nd` for the actual d-dimensional correlated Gaussian -/
+theorem C03_rwm_increment_even (S : Matrix d d ℝ) (σ : ℝ) (ξ : d → ℝ) :
+    Real.exp (-(maha S (-ξ)) / (2 * σ ^ 2)) = Real.exp (-(maha S ξ) / (2 * σ ^ 2)) := by
+  have : maha S (-ξ) = maha S ξ := by
+    have h := maha_smul S (-1) ξ
+    simpa using h
+  rw [this]
+
+theorem C03_rwm_increment_norm (L : Matrix d d ℝ) (hL : IsUnit L.det) (x z : d → ℝ) (σ : ℝ) :
+    maha (L * Lᵀ) ((x + σ • (L *ᵥ z)) - x) = σ ^ 2 * (z ⬝ᵥ z) := by
+  rw [← maha_chol_noise L hL σ z]; congr 1; abel
+
+end Geometry
+
+/-! ## 10b. any boundary type per coordinate (hard / periodic / reflective mixed in one vector) -/
+
+/-- boundary type of a coordinate -/
+inductive BT
+  | hard | per | refl
+  deriving DecidableEq
+
+/-- index set of the preimages of a folded coordinate: one point (hard: no fold), `ℤ` (periodic), `ℤ × Bool` (reflective) -/
+abbrev BIdx : BT → Type
+  | .hard => Unit
+  | .per => ℤ
+  | .refl => ℤ × Bool
+
+/-- the preimages of `y` under the coordinate's boundary map -/
+def preB : (b : BT) → BIdx b → ℝ → ℝ
+  | .hard, _, y => y
+  | .per, m, y => ((m : ℤ) : ℝ) + y
+  | .refl, p, y => Props.C16.reflPre p y
+
+def flipB : (b : BT) → BIdx b ≃ BIdx b
+  | .hard => Equiv.refl _
+  | .per => Equiv.neg ℤ
+  | .refl => Props.C16.flipE
+
+/-- the reflective preimages `2m - y` are the ones whose displacement is NOT negated by the re-indexing -/
+def keepsSign : (b : BT) → BIdx b → Bool
+  | .hard, _ => false
+  | .per, _ => false
+  | .refl, p => !p.2
+
+theorem preB_flip (b : BT) (q : BIdx b) (x y : ℝ) :
+    preB b (flipB b q) y - x = -(if keepsSign b q then -(preB b q x - y) else (preB b q x - y)) := by
+  cases b with
+  | hard => simp [preB, flipB, keepsSign]
+  | per =>
+    simp only [preB, flipB, keepsSign, Equiv.neg_apply, Bool.false_eq_true, if_false]
+    push_cast; ring
+  | refl =>
+    rcases q with ⟨m, c⟩
+    cases c
+    · simp only [preB, flipB, keepsSign, Props.C16.flipE, Props.C16.reflPre, Equiv.coe_fn_mk, Bool.false_eq_true,
+        if_false, Bool.not_false, if_true]
+      ring
+    · simp only [preB, flipB, keepsSign, Props.C16.flipE, Props.C16.reflPre, Equiv.coe_fn_mk, if_true, Bool.not_true,
+        Bool.false_eq_true, if_false, Int.cast_neg]
+      ring
+
+theorem keepsSign_refl (b : BT) (q : BIdx b) (h : keepsSign b q = true) : b = .refl := by
+  cases b <;> simp_all [keepsSign]
+
+/-- **Any mix of boundary types**: the proposal density after applying every coordinate's boundary map,
+    `Σ_p k(pre_p(y) - x)`, is symmetric in `(x, y)` when the increment density `k` is even and, in addition, even in each
+    REFLECTIVE coordinate separately (no condition on hard and periodic coordinates: full correlation allowed there). -/
+theorem fold_mixed_symmetric {ι : Type} (bt : ι → BT) (k : (ι → ℝ) → ℝ) (hk0 : ∀ z, k (-z) = k z)
+    (hk : ∀ (s : ι → Bool) (z : ι → ℝ), (∀ i, s i = true → bt i = .refl) →
+      k (fun i => if s i then -z i else z i) = k z) (x y : ι → ℝ) :
+    (∑' p : (i : ι) → BIdx (bt i), k (fun i => preB (bt i) (p i) (y i) - x i))
+      = ∑' p : (i : ι) → BIdx (bt i), k (fun i => preB (bt i) (p i) (x i) - y i) := by
+  rw [← (Equiv.piCongrRight (fun i : ι => flipB (bt i))).tsum_eq]
+  congr 1; funext p
+  have e : (fun i => preB (bt i) ((Equiv.piCongrRight (fun i : ι => flipB (bt i))) p i) (y i) - x i)
+      = -(fun i => if keepsSign (bt i) (p i) then -(preB (bt i) (p i) (x i) - y i) else (preB (bt i) (p i) (x i) - y i)) := by
+    funext i
+    simp only [Equiv.piCongrRight_apply, Pi.neg_apply]
+    exact preB_flip (bt i) (p i) (x i) (y i)
+  rw [e, hk0, hk (fun i => keepsSign (bt i) (p i)) _ (fun i h => keepsSign_refl _ _ h)]
+
+/-- RWM with an arbitrary boundary type per coordinate, as the code is now (fold, then reject outside the cube in the hard
+    coordinates): detailed balance w.r.t. `exp(β·logL)·1_cube` for every pair of points, under the per-reflective-coordinate
+    evenness that F21 shows to be necessary -/
+theorem C03_rwm_mixed_boundaries {ι : Type} (bt : ι → BT) (k : (ι → ℝ) → ℝ) (hk0 : ∀ z, k (-z) = k z)
+    (hk : ∀ (s : ι → Bool) (z : ι → ℝ), (∀ i, s i = true → bt i = .refl) →
+      k (fun i => if s i then -z i else z i) = k z) (x y : ι → ℝ) (inX inY : Bool) (β lx ly : ℝ) :
+    cubeWeight inX (exp (β * lx)) * (∑' p : (i : ι) → BIdx (bt i), k (fun i => preB (bt i) (p i) (y i) - x i))
+        * boundedAccept inY (Gen.Kernel.acceptProb β lx ly Gen.Kernel.rwmLogFactor)
+      = cubeWeight inY (exp (β * ly)) * (∑' p : (i : ι) → BIdx (bt i), k (fun i => preB (bt i) (p i) (x i) - y i))
+        * boundedAccept inX (Gen.Kernel.acceptProb β ly lx Gen.Kernel.rwmLogFactor) :=
+  C03_rwm_hard_reject inX inY β lx ly _ _ (fold_mixed_symmetric bt k hk0 hk x y)
+
+/-- non-vacuity: two coordinates, the first periodic, the second hard, fully correlated-looking even density
+    `k z = exp(-(z₀ - z₁)²)` (not even in each coordinate separately): the hypotheses hold since no coordinate is reflective -/
+example (x y : Fin 2 → ℝ) :
+    (∑' p : (i : Fin 2) → BIdx (![BT.per, BT.hard] i), (fun z : Fin 2 → ℝ => exp (-(z 0 - z 1) ^ 2))
+        (fun i => preB (![BT.per, BT.hard] i) (p i) (y i) - x i))
+      = ∑' p : (i : Fin 2) → BIdx (![BT.per, BT.hard] i), (fun z : Fin 2 → ℝ => exp (-(z 0 - z 1) ^ 2))
+        (fun i => preB (![BT.per, BT.hard] i) (p i) (x i) - y i) := by
+  refine fold_mixed_symmetric (![BT.per, BT.hard]) (fun z : Fin 2 → ℝ => exp (-(z 0 - z 1) ^ 2)) ?_ ?_ x y
+  · intro z; simp only [Pi.neg_apply]; congr 1; ring
+  · intro s z hs
+    have h0 : s 0 = false := by
+      by_contra h; have := hs 0 (by simpa using h); simp at this
+    have h1 : s 1 = false := by
+      by_contra h; have := hs 1 (by simpa using h); simp at this
+    simp [h0, h1]
+
+/-! ## 11. several modes: every walker uses the statistics of ITS mode, in the proposal and in the factor -/
+
+section MultiMode
+open Model.Kernel
+
+/-- static tie (G4): every per-mode array in `_propose` is subscripted with `self.assignments[k]`, in
+    `_compute_acceptance_factor` with `self.assignments` — no other index expression occurs -/
+theorem C03_mode_index_coherent :
+    Gen.Kernel.modeIndexTable ≠ [] ∧ ∀ e ∈ Gen.Kernel.modeIndexTable, e.2.2 = e.1 := by
+  decide
+
+/-- the ensemble model hands walker `w` exactly the statistics of mode `w.assign` (and that mode's step size); an invalid
+    index is an error, never a default -/
+theorem C03_walker_uses_own_mode {α : Type} [ScT α] (i : RunIn α) (w : Walker α) (o : StepOut α)
+    (h : walkerStep i w = some o) :
+    ∃ m sg, i.modes[w.assign]? = some m ∧ i.sigmas[w.assign]? = some sg ∧
+      o = step { kind := i.kind, u := w.u, mu := m.mu, chol := m.chol, invcov := m.invcov, nu := m.nu, sigma := sg,
+                 beta := i.beta, l := w.l, lp := w.lp, g := w.g, r := w.r, z := w.z, per := i.per, refl := i.refl } := by
+  unfold walkerStep walkerInput at h
+  cases hm : i.modes[w.assign]? with
+  | none => simp [hm] at h
+  | some m =>
+    cases hs : i.sigmas[w.assign]? with
+    | none => simp [hm, hs] at h
+    | some sg =>
+      simp only [hm, hs, Option.map_some, Option.some.injEq] at h
+      exact ⟨m, sg, rfl, rfl, h.symm⟩
+
+/-- for a tpCN walker the gamma parameters, both quadratic forms, the factor and alpha are all built from the SAME mode
+    `m = modes[assign]` (mean, inverse covariance, dof) — the pairing the balance equation needs -/
+theorem C03_multimode_factor_same_mode {α : Type} [ScT α] (i : RunIn α) (w : Walker α) (o : StepOut α)
+    (hk : i.kind = .tpcn) (h : walkerStep i w = some o) :
+    ∃ m, i.modes[w.assign]? = some m ∧
+      o.dot = qform (vsub w.u m.mu) m.invcov ∧
+      o.shape = gammaShape (Sc.ofNat w.u.length) m.nu ∧
+      o.scale = gammaScale m.nu o.dot ∧
+      o.dotp = qform (vsub o.prop m.mu) m.invcov ∧
+      o.factor = tpcnLogFactor (Sc.ofNat w.u.length) m.nu o.dot o.dotp ∧
+      o.alpha = boundedAlpha o.inb (acceptProb i.beta w.l w.lp o.factor) := by
+  obtain ⟨m, sg, hm, -, ho⟩ := C03_walker_uses_own_mode i w o h
+  refine ⟨m, hm, ?_⟩
+  subst ho
+  simp [step, finish, hk]
+
+/-- clusters without a walker keep their step size; the others get `_adapt_sigma` of the mean alpha of THEIR walkers -/
+theorem C03_adapt_per_cluster {α : Type} [ScT α] (i : RunIn α) (alphas : List α) (c : Nat) (sg : α)
+    (hc : i.sigmas[c]? = some sg) :
+    (adaptAll i alphas)[c]? = some
+      (if (clusterAlphas (i.walkers.map (·.assign)) alphas c).isEmpty then sg
+       else adaptOne i.kind sg i.iter (mean (clusterAlphas (i.walkers.map (·.assign)) alphas c)) i.sigma0) := by
+  unfold adaptAll
+  rw [List.getElem?_mapIdx, hc]; rfl
+
+theorem C03_adapt_length {α : Type} [ScT α] (i : RunIn α) (alphas : List α) :
+    (adaptAll i alphas).length = i.sigmas.length := by
+  simp [adaptAll]
+
+/-- **the ensemble**: the assignment is a function of the walker INDEX, fixed during the step, and the walkers use
+    independent draws; if every walker's kernel satisfies detailed balance, so does the product kernel w.r.t. the product
+    target (`flowF k` = π(x_k) P_k(x_k, y_k), `flowB k` = π(y_k) P_k(y_k, x_k)). -/
+theorem C03_ensemble_detailed_balance {ι : Type} [Fintype ι] (flowF flowB : ι → ℝ) (h : ∀ k, flowF k = flowB k) :
+    ∏ k, flowF k = ∏ k, flowB k :=
+  Finset.prod_congr rfl fun k _ => h k
+
+/-- the states never leave the cube: a step started inside `check_bounds` ends inside (accepted points passed the check,
+    rejected walkers stay) — the invariant the hard-boundary theorem assumes of the current state -/
+theorem C03_step_stays_in_cube {α : Type} [ScT α] (i : StepIn α)
+    (h : Model.Boundary.checkBounds i.per i.refl i.u = true) :
+    Model.Boundary.checkBounds i.per i.refl (step i).newU = true := by
+  unfold step
+  cases i.kind <;> simp only [finish] <;> split <;> (try exact h) <;> split <;> assumption
+
+end MultiMode
+
+/-! ## 12. step-size range and the degenerate step -/
+
+/-- after any adaptation the tpCN step size lies in `[0, 0.99]` (for `sigma_0 ≥ 0`): the hypothesis `σ < 1` of
+    `C03_tpcn_interior` is maintained by the code itself -/
+theorem C03_tpcn_adapt_range (sigma iter acc sigma0 : ℝ) (h0 : 0 ≤ sigma0) (hit : 0 ≤ iter) :
+    0 ≤ Gen.Kernel.tpcnAdapt sigma iter acc sigma0 ∧ Gen.Kernel.tpcnAdapt sigma iter acc sigma0 ≤ 99 / 100 := by
+  rw [gen_eq_canon_tpcnAdapt sigma iter acc sigma0 hit]
+  simp only [Model.Kernel.tpcnAdapt, ScReal.min_def, ScReal.max_def, ScReal.zero_def, ScReal.lit_def]
+  constructor
+  · apply le_min
+    · exact le_max_right _ _
+    · apply le_min h0; norm_num
+  · calc min _ (min sigma0 _) ≤ min sigma0 _ := min_le_right _ _
+      _ ≤ _ := min_le_right _ _
+      _ = 99 / 100 := by norm_num
+
+/-- `σ = 0` (the lower clip): coefficient 1 and no noise — the proposal is the current point and the step is the identity -/
+theorem C03_tpcn_sigma_zero (s : ℝ) :
+    Gen.Kernel.tpcnDiffCoef 0 s = 1 ∧ Gen.Kernel.tpcnNoiseScale 0 s = 0 := by
+  rw [gen_eq_canon_tpcnDiffCoef, gen_eq_canon_tpcnNoiseScale]
+  simp [Model.Kernel.diffCoef, Model.Kernel.noiseScale]
+
+/-! ## 13. non-vacuity of §10–§12 -/
+
+section Examples2
+open Matrix Lemmas.Maha Lemmas.KernelGeom Model.Kernel
+
+/-- identity factor, d = 2: the exponent identity with concrete vectors -/
+example : maha ((1 : Matrix (Fin 2) (Fin 2) ℝ) * (1 : Matrix (Fin 2) (Fin 2) ℝ)ᵀ)
+      ((![1/2, 1/2] + (4/5 : ℝ) • (![1/4, 1] - ![1/2, 1/2]) + (3/5 : ℝ) • ((1 : Matrix (Fin 2) (Fin 2) ℝ) *ᵥ ![1, -2]))
+        - ![1/2, 1/2])
+    - 2 * (4/5) * mahaCross ((1 : Matrix (Fin 2) (Fin 2) ℝ) * (1 : Matrix (Fin 2) (Fin 2) ℝ)ᵀ) (![1/4, 1] - ![1/2, 1/2])
+      ((![1/2, 1/2] + (4/5 : ℝ) • (![1/4, 1] - ![1/2, 1/2]) + (3/5 : ℝ) • ((1 : Matrix (Fin 2) (Fin 2) ℝ) *ᵥ ![1, -2]))
+        - ![1/2, 1/2])
+    + (4/5) ^ 2 * maha ((1 : Matrix (Fin 2) (Fin 2) ℝ) * (1 : Matrix (Fin 2) (Fin 2) ℝ)ᵀ) (![1/4, 1] - ![1/2, 1/2])
+    = (3/5) ^ 2 * (![1, -2] ⬝ᵥ ![1, -2]) :=
+  C03_cn_exponent_is_noise_norm 1 (by simp) _ _ _ _ _
+
+noncomputable def exModes : List (Mode ℝ) :=
+  [{ mu := [3/10], chol := [[1/10]], invcov := [[100]], nu := 5/2 }, { mu := [7/10], chol := [[1/4]], invcov := [[16]], nu := 60 }]
+noncomputable def exRun : RunIn ℝ :=
+  { kind := .tpcn, modes := exModes, sigmas := [1/2, 4/5], beta := 1, per := [], refl := [], iter := 1, sigma0 := 238/100,
+    walkers := [] }
+noncomputable def exWalker (a : Nat) : Walker ℝ := { u := [2/5], assign := a, l := 0, lp := 0, g := 1, r := 1/2, z := [1] }
+
+/-- walker assigned to mode 1 gets mode 1's dof 60 (not mode 0's 5/2) in the gamma shape; index 5 is an error -/
+example : (walkerStep exRun (exWalker 1)).isSome = true ∧ walkerStep exRun (exWalker 5) = none := by
+  constructor <;> simp [walkerStep, walkerInput, exRun, exModes, exWalker]
+
+example : ∃ o, walkerStep exRun (exWalker 1) = some o ∧ o.shape = gammaShape (Sc.ofNat 1) (60 : ℝ) := by
+  obtain ⟨o, ho⟩ := Option.isSome_iff_exists.mp
+    (show (walkerStep exRun (exWalker 1)).isSome = true by simp [walkerStep, walkerInput, exRun, exModes, exWalker])
+  refine ⟨o, ho, ?_⟩
+  obtain ⟨m, hm, -, hshape, -⟩ := C03_multimode_factor_same_mode exRun (exWalker 1) o rfl ho
+  have : m.nu = 60 := by
+    simp [exRun, exModes, exWalker] at hm; rw [← hm]
+  rw [hshape, this]; rfl
+
+example : (0 : ℝ) ≤ Gen.Kernel.tpcnAdapt (1/2 : ℝ) 1 1 (238/100) ∧ Gen.Kernel.tpcnAdapt (1/2 : ℝ) 1 1 (238/100) ≤ 99 / 100 :=
+  C03_tpcn_adapt_range (1/2) 1 1 (238/100) (by norm_num) (by norm_num)
+
+example : (2 : ℝ) * 3 * 5 = 5 * 3 * 2 := by
+  have := C03_ensemble_detailed_balance (ι := Fin 3) ![2, 3, 5] ![2, 3, 5] (fun _ => rfl)
+  norm_num
+
+end Examples2
 
 end Props.C03
